@@ -12,6 +12,11 @@ CHECKS = {
          "For several merchant configurations and agreed (channel id, balances, context) tuples, an independent prover written on bls12_381 arithmetic builds establish proofs for ~35 false (state, close state) witnesses (each slot, each message, cross-slot, out-of-range) under four strategy families: honest-but-lying, answer-as-if-agreed (exactly the Schnorr relation false), and post-challenge choice of each non-response field (T of either proof, each revealed commitment scalar, C) iterated up to three rounds with the verifier's challenge read through the hook. Every proof goes to the real initialize(); an alarm requires the returned closing signature or pay token, unblinded with the forger's factor, to verify on a message that differs from the agreed one. Positive control (true witness through the same machinery) must be accepted.",
          "Soundness is decided against this explicit forger family only, not against all provers. Trusts bls12_381, the pairing reference (cross-checked against Signature::verify on every accepted case) and the hook (observes, never alters, the challenge).",
          "DESIGN.md §4 C01"),
+ "C02": ("fault_enumeration",
+         "runtime monitoring: adversarial shadow pay prover holding a real pay token against the real merchant, verifier challenge through the hook, oracle = closing signature verifying on a false close state / token link false by pairing reference / completion with a foreign revocation pair",
+         "From honest channel histories (0-3 payments, boundary balances) the harness reads the customer's real pay token and old state, then an independent prover (bls12_381 arithmetic, 18 digit proofs included) builds pay proofs for ~45 false variants per base: wrong public nonce, amount wrong on either balance or in only one of state/close state, foreign channel id, close-tag slot replaced, old/new lock mismatch, foreign/tampered/random token, old state richer than the token, and out-of-range balances (-1, 2^63) with the attacker's best digit constraints (residue, all-max, digit outside the alphabet under another digit's signature, negative digit). Strategies: honest-but-lying, answer-as-if-true, post-challenge choice of every scalar commitment and of the two revealed commitment scalars, iterated with the challenge read through the hook. Falsity is recomputed from what the forger holds; an alarm needs an exhibited witness. Positive control per base.",
+         "Soundness is decided against this explicit forger family only. Trusts bls12_381, the pairing reference, the hook.",
+         "DESIGN.md §4 C02"),
  "C15": ("fault_enumeration",
          "runtime monitoring: wire tracer enumerates every atom of every serializable type; decode-time invariant table checked by substitution; behavioural twin checks of decoded keys/parameters",
          "Every serializable type of both crates (all tuple lengths of the tier, the five customer stages from a real session) is round-tripped; every atom of every honest encoding is replaced in turn by each encoding its position forbids (off-curve, out-of-subgroup, flag patterns, scalar >= q everywhere; identity / zero / close tag / unmatched lock, secret, index / balance >= 2^63 by position) and the decoder must refuse, while valid alternatives must still round trip. Decoded keys, parameters and merchant parts are used against the originals. Exhaustive over atoms x table for one instance per type; the layout is observed from the Serialize impls, not hard-coded.",
